@@ -2,7 +2,7 @@
 
 use serde_json::json;
 
-use crate::astcmp::Cmp;
+use crate::astcmp::{vue_define_component_ctxt, Cmp};
 use crate::choices::Choices;
 use crate::driver::{jsx_census, module_json, with_transform, Lang, Rejected};
 use crate::gen::grammar::{Knobs, G};
@@ -60,7 +60,7 @@ pub fn judge(case: &Case) -> Verdict {
         if in_census == 0 && !has_dc_call {
             // returned unchanged, nothing added
             if in_json != out_json {
-                let cmp = Cmp { resolve_type: false };
+                let cmp = Cmp { resolve_type: false, dc_ctxt: None };
                 let why = cmp.embed(&in_json["body"], &out_json["body"], "$body").err();
                 return (
                     Verdict::Violation {
@@ -83,7 +83,7 @@ pub fn judge(case: &Case) -> Verdict {
                 );
             }
         } else {
-            let cmp = Cmp { resolve_type };
+            let cmp = Cmp { resolve_type, dc_ctxt: vue_define_component_ctxt(&in_json["body"]) };
             if let Err(e) = cmp.embed(&in_json["body"], &out_json["body"], "$body") {
                 return (
                     Verdict::Violation {
@@ -237,6 +237,16 @@ impl Property for C09 {
     }
     fn check(&self, case: &Case, _ctx: &mut Ctx) -> Verdict {
         judge(case)
+    }
+    fn extra_stage(
+        &self,
+        ctx: &mut Ctx,
+        stats: &mut crate::runner::Stats,
+    ) -> Result<Option<crate::runner::Violation>, String> {
+        if ctx.tier != Tier::Thorough {
+            return Ok(None);
+        }
+        crate::fuzzstage::fuzz_stage("C09", ctx, stats, 180, true)
     }
     fn required_labels(&self) -> Vec<&'static str> {
         vec!["has-jsx", "jsx-free", "corpus-file", "ctx=class", "ctx=try", "ctx=arrow-expr", "lang=tsx"]
